@@ -6,7 +6,8 @@ From TK Require Import QuadTree_Model QuadTree_Spec QuadTree_SpecExec QuadTree_P
                        QuadTree_Proof_Insert QuadTree_Proof_Main QuadTree_Proof_Forces
                        QuadTree_Proof_Fuel QuadTree_Proof_Spec QuadTree_Proof_Exec
                        QuadTree_Proof_Observers QuadTree_Proof_Order QuadTree_Proof_Order2
-                       QuadTree_Proof_Bound QuadTree_Proof_Gradient QuadTree_Proof_Dump.
+                       QuadTree_Proof_Bound QuadTree_Proof_Gradient QuadTree_Proof_Dump
+                       QuadTree_Proof_Coarse QuadTree_Proof_Counts.
 Import ListNotations.
 Local Open Scope Q_scope.
 
@@ -370,3 +371,83 @@ Qed.
 
 Lemma ex_tsne_tree : exists ok t, tsne_tree (1 # 100000) 12 ex_data 5 = Some (Done ok t) /\ (5 <= length ex_data)%nat.
 Proof. eexists. eexists. split; [vm_compute; reflexivity | cbn; lia]. Qed.
+
+(* ---------- further non-vacuity witnesses ---------- *)
+
+Definition ex_order2' : list nat := [3; 1; 0; 2]%nat.
+
+Lemma ex_perm2 : Permutation ex_order2 ex_order2'.
+Proof.
+  unfold ex_order2, ex_order2'. apply Permutation_sym.
+  apply (Permutation_cons_app [0; 1; 2]%nat [] 3%nat). cbn [app].
+  apply (Permutation_cons_app [0]%nat [2]%nat 1%nat). cbn [app].
+  apply Permutation_refl.
+Qed.
+
+Lemma ex_builds2' : exists t, fill_order true 6 ex_data2 ex_order2' (init ex_root) = Done true t.
+Proof. eexists. vm_compute. reflexivity. Qed.
+
+Lemma ex_hyps_basic : in_root ex_data ex_root ex_order /\
+  exists t, fill_order true 6 ex_data ex_order (init ex_root) = Done true t.
+Proof. exact (conj ex_in_root ex_builds0). Qed.
+
+Lemma ex_hyps_noco : in_root ex_data2 ex_root ex_order2 /\ NoCo ex_data2 ex_order2 /\
+  exists t, fill_order true 6 ex_data2 ex_order2 (init ex_root) = Done true t.
+Proof. exact (conj ex_in_root2 (conj ex_noco2 ex_builds2)). Qed.
+
+Lemma ex_hyps_order2 : Permutation ex_order2 ex_order2' /\ in_root ex_data2 ex_root ex_order2 /\
+  NoCo ex_data2 ex_order2 /\
+  (exists t, fill_order true 6 ex_data2 ex_order2 (init ex_root) = Done true t) /\
+  (exists t, fill_order true 6 ex_data2 ex_order2' (init ex_root) = Done true t).
+Proof. exact (conj ex_perm2 (conj ex_in_root2 (conj ex_noco2 (conj ex_builds2 ex_builds2')))). Qed.
+
+Lemma ex_hyps_order : Permutation ex_order ex_order' /\ in_root ex_data ex_root ex_order /\
+  (exists t, fill_order true 6 ex_data ex_order (init ex_root) = Done true t) /\
+  (exists t, fill_order true 6 ex_data ex_order' (init ex_root) = Done true t).
+Proof. exact (conj ex_perm (conj ex_in_root (conj ex_builds0 ex_builds'))). Qed.
+
+Lemma ex_rows_valid : forall n, In n (seq 0 4) -> (n < length ex_data2)%nat.
+Proof. intros n Hn. apply in_seq in Hn. cbn. lia. Qed.
+
+Lemma ex_hyps_loop : (in_root ex_data2 ex_root ex_order2 /\ NoCo ex_data2 ex_order2 /\
+  exists t, fill_order true 6 ex_data2 ex_order2 (init ex_root) = Done true t) /\
+  (forall n, In n (seq 0 4) -> (n < length ex_data2)%nat) /\ 0 <= (1 # 8) /\ 8 * ((1 # 8) * (1 # 8)) <= 1.
+Proof. exact (conj ex_hyps_noco (conj ex_rows_valid ex_theta)). Qed.
+
+Lemma ex_spec_okb : exists t, spec_okb ex_data ex_order t = true /\ struct_okb ex_data ex_order t = true.
+Proof. destruct ex_builds as (t & _ & A & B). exists t. auto. Qed.
+
+Lemma ex_spec_noco : exists t, spec ex_data2 ex_order2 t /\ NoCo ex_data2 ex_order2.
+Proof.
+  destruct ex_builds2 as (t & E). exists t. split; [|exact ex_noco2].
+  apply (routed_once_final 6 ex_data2 ex_order2 ex_root true t ex_in_root2 E).
+Qed.
+
+(* ---------- every theta: the sums are the all-pairs sums of a coarsened point set ---------- *)
+
+Lemma forces_coarsened_final : forall data ins t,
+  spec data ins t -> NoCo data ins ->
+  forall p i theta,
+    exists items : list item,
+      Permutation (concat (map fst items)) ins /\
+      Forall (item_ok data i) items /\
+      forall a, forces_at p i theta t a = fold_left (add_item p) items a.
+Proof. exact forces_coarsened_gen. Qed.
+
+(* ---------- the literal count of the points inside a cell's box ---------- *)
+
+Lemma cell_counts_final : forall fuel data order root ok t,
+  in_root data root order -> NoDup order ->
+  fill_order true fuel data order (init root) = Done ok t ->
+  all_cells (cell_counts_ok data order) t.
+Proof.
+  intros fuel data order root ok t Hin Hnd E.
+  apply (cell_counts_gen true fuel data order root ok t Hin (or_introl eq_refl) Hnd E).
+Qed.
+
+Lemma ex_nodup : NoDup ex_order.
+Proof. repeat constructor; cbn; intuition lia. Qed.
+
+Lemma ex_hyps_counts : in_root ex_data ex_root ex_order /\ NoDup ex_order /\
+  exists t, fill_order true 6 ex_data ex_order (init ex_root) = Done true t.
+Proof. exact (conj ex_in_root (conj ex_nodup ex_builds0)). Qed.
